@@ -436,3 +436,89 @@ def ctr_default_counter(vc):
     o1b = m1.encrypt(as_bytes(vc, q))
     vc.prove("interleaved.first-object-continues-at-2", bytes_eq(vc, o1b, _xor(vc, q, E(vc, key, two))))
     vc.cover("default-counter")
+
+
+# ---------------------------------------------------------------------------------------
+# Encrypter / Decrypter wiring and the stream drivers: the feeder is given THIS mode's encrypt / _final_encrypt (decrypt /
+# _final_decrypt) and the caller's padding; _feed_stream hands every chunk the input stream returns to feed() in order, then
+# flushes once with feed(), and writes every result in order; encrypt_stream / decrypt_stream hand block size and padding on.
+
+@proof("C16/streams.wiring", functions=[(FEED, "Encrypter.__init__"), (FEED, "Decrypter.__init__"), (FEED, "_feed_stream"),
+                                        (FEED, "encrypt_stream"), (FEED, "decrypt_stream")],
+       family=lambda seed, tier: [dict(k=k) for k in (0, 1, 2, 5)])
+def streams_wiring(vc):
+    F = vc.module(FEED)
+    k = vc.choice("k", [0, 1, 2, 5])
+
+    class Mode:
+        def encrypt(self, x):
+            return b"E"
+
+        def decrypt(self, x):
+            return b"D"
+
+        def _final_encrypt(self, data, padding):
+            return b"FE"
+
+        def _final_decrypt(self, data, padding):
+            return b"FD"
+
+        def _can_consume(self, size):
+            return size
+
+    m, PAD = Mode(), "some-padding"
+    e, d = F.Encrypter(m, PAD), F.Decrypter(m, padding=PAD)
+    vc.ground("Encrypter=(mode,mode.encrypt,mode._final_encrypt,padding)", e._mode is m and e._feed == m.encrypt
+              and e._final == m._final_encrypt and e._padding == PAD and len(e._buffer) == 0)
+    vc.ground("Decrypter=(mode,mode.decrypt,mode._final_decrypt,padding)", d._mode is m and d._feed == m.decrypt
+              and d._final == m._final_decrypt and d._padding == PAD and len(d._buffer) == 0)
+    vc.ground("default-padding", F.Encrypter(m)._padding == F.PADDING_DEFAULT and F.Decrypter(m)._padding == F.PADDING_DEFAULT)
+    chunks = [b"chunk-%d" % i for i in range(k)]
+    reads, fed, written = [], [], []
+
+    class In:
+        def __init__(self):
+            self.i = 0
+
+        def read(self, n):
+            reads.append(n)
+            self.i += 1
+            return chunks[self.i - 1] if self.i <= len(chunks) else b""
+
+    class Out:
+        def write(self, x):
+            written.append(x)
+
+    class Feeder:
+        def feed(self, data=None):
+            fed.append(data)
+            return b"<%s>" % (data if data is not None else b"FLUSH")
+
+    F._feed_stream(Feeder(), In(), Out(), 77)
+    vc.ground("_feed_stream: every-chunk-in-order-then-one-flush", fed == chunks + [None], repr(fed))
+    vc.ground("_feed_stream: every-result-written-in-order", written == [b"<%s>" % c for c in chunks] + [b"<FLUSH>"], repr(written))
+    vc.ground("_feed_stream: reads-with-the-given-block-size-until-the-first-empty-read", reads == [77] * (k + 1), repr(reads))
+    # the public drivers
+    calls = []
+    real_fs, real_e, real_d = F._feed_stream, F.Encrypter, F.Decrypter
+    F._feed_stream = lambda feeder, i, o, bs=None: calls.append((feeder, i, o, bs))
+    F.Encrypter = lambda mode, padding=None: ("ENC", mode, padding)
+    F.Decrypter = lambda mode, padding=None: ("DEC", mode, padding)
+    try:
+        i_, o_ = In(), Out()
+        F.encrypt_stream(m, i_, o_, 4096, PAD)
+        F.decrypt_stream(m, i_, o_, 512, PAD)
+        F.encrypt_stream(m, i_, o_)
+    finally:
+        F._feed_stream, F.Encrypter, F.Decrypter = real_fs, real_e, real_d
+    vc.ground("encrypt_stream->Encrypter(mode,padding),streams,block-size", calls[:1] == [(("ENC", m, PAD), i_, o_, 4096)], repr(calls[:1]))
+    vc.ground("decrypt_stream->Decrypter(mode,padding),streams,block-size", calls[1:2] == [(("DEC", m, PAD), i_, o_, 512)], repr(calls[1:2]))
+    vc.ground("defaults: 8-KiB-blocks-and-default-padding", calls[2:3] == [(("ENC", m, F.PADDING_DEFAULT), i_, o_, 1 << 13)], repr(calls[2:3]))
+    vc.cover("wiring")
+
+
+# the adapter is reached through the registry, and component content is zero-padded by crypto.pad before it gets there:
+# both contracts (proved under C06) are obligations of this property too
+from pyvc.harness import reuse as _reuse
+_reuse("C06/crypto.registry", "C16/crypto.registry(create_AES128->registered-adapter(key,iv))")
+_reuse("C06/pad", "C16/crypto.pad=zero-padding-to-16")
